@@ -15,6 +15,9 @@ checked: the plan's own cleanup blocks are never required here.
 """
 
 from . import generic
+from sim import gen
+from sim.dsl import SiteCounter
+
 from .common import V, View
 
 ID = "C06"
@@ -27,6 +30,16 @@ valid_case = generic.valid_case
 
 def cases(seed, tier):
     yield from generic.interruption_cases(ID, seed, tier, dev_faults=0.4, K=(12, 20), flyers=1, callbacks=True)
+    # the same kind of run written the way the built-in plans write it: run_wrapper closes the run itself on the way
+    # out (abort, stop, failure), so the engine's end-of-call clean-up finds no open run any more
+    rng = gen.rng_for(ID, seed, "wrapped")
+    base = generic.base_case(ID, seed, rng, suspender=0.3, flyers=1, followups=True)
+    pg = gen.PlanGen(rng, base["devices"], sites=SiteCounter())
+    block = pg.run_block(fly=1.0, monitor=0.5, npoints=rng.choice([1, 2]))
+    inner = block[1:-1]
+    base["script"][generic.main_index(base)]["plan"] = pg.staged([{"op": "wrap", "name": "run_wrapper", "kw": {"md": {"wrapped": True}}, "body": inner}], style=rng.choice(["finally", "none"]))
+    base["script"] = [s for s in base["script"] if s.get("tag") != "followup-run" or True]
+    yield from generic.interruption_cases(ID, seed, tier, dev_faults=0.3, K=(5, 10), rng=rng, base=base)
 
 
 def check(res):
